@@ -155,6 +155,15 @@ def compare(c, exp, out):
             edates = [str(ts(t).date()) for t, _v in curve]
             if out.equity_df_dates != edates:
                 res.append(("equity-dates", "equity frame index %s, expected %s" % (out.equity_df_dates[:10], edates[:10])))
+            if out.alloc_df is not None and c["alpha"] == "single":
+                # C19 on the table the session reports: no weight on a day before the asset's entry day (or without entry)
+                for d, row in zip(out.alloc_df["index"], out.alloc_df["rows"]):
+                    early = [a for a, v in row.items() if v is not None and v != 0 and a[3:] in c["entry"] and (
+                        c["entry"][a[3:]] == -1 or (c["entry"][a[3:]] > 0 and str(ts(c["entry"][a[3:]]).date()) > d[:10]))]
+                    if early:
+                        res.append(("alloc-table-before-entry", "the allocation table reports a weight for %s on %s, before its universe entry %s" % (
+                            early[0], d[:10], "(none)" if c["entry"][early[0][3:]] == -1 else ts(c["entry"][early[0][3:]]))))
+                        break
             if allocs and out.alloc_df is not None:
                 burn_date = None if c["burn"] == -1 else str(ts(c["burn"]).date())
                 rows = [(d, k) for d, k in zip(edates, table) if burn_date is None or d >= burn_date]
@@ -181,7 +190,7 @@ OWN = {
     "C08": {"failure", "fill-times", "fill-quantities", "fill-price", "fill-commission", "cash", "holdings", "equity-values",
             "alloc-weights", "alloc-keys", "rebalance-instants", "equity-dates"},
     "C14": {"rebalance-instants", "fill-times", "equity-dates", "equity-values", "alloc-table", "frames"},
-    "C19": {"alloc-keys", "alloc-weights", "fill-quantities", "holdings", "fill-times", "static-universe"},
+    "C19": {"alloc-keys", "alloc-weights", "fill-quantities", "holdings", "fill-times", "static-universe", "alloc-table-before-entry"},
 }
 
 
